@@ -31,7 +31,7 @@ struct RunResult {
 
 // the object lives in storage pre-filled with `pattern`, the stack below the calls is pre-filled with it too:
 // any statistic that depends on an uninitialised member or local differs between two patterns
-inline RunResult runApi(const SolverCfg& cfg, int gridFile, const std::string& fr, const std::string& ft, unsigned char pattern)
+inline RunResult runApi(const SolverCfg& cfg, int gridFile, const std::string& fr, const std::string& ft, unsigned char pattern, int verbosity = 0)
 {
     RunResult r;
     void* raw = ::operator new(sizeof(GMGPolar));
@@ -55,6 +55,29 @@ inline RunResult runApi(const SolverCfg& cfg, int gridFile, const std::string& f
             s->file_grid_radii(fr);
             s->file_grid_angles(ft);
         }
+        // 'verbose' is a diagnostic option: it must not change anything but the output (stdout is discarded meanwhile)
+        s->verbose(verbosity);
+        fflush(stdout);
+        const int savedOut = verbosity > 0 ? dup(1) : -1;
+        if (savedOut >= 0) {
+            int nul = open("/dev/null", O_WRONLY);
+            if (nul >= 0) {
+                dup2(nul, 1);
+                close(nul);
+            }
+        }
+        struct Restore {
+            int fd;
+            ~Restore()
+            {
+                if (fd >= 0) {
+                    std::cout.flush();
+                    fflush(stdout);
+                    dup2(fd, 1);
+                    close(fd);
+                }
+            }
+        } restore{savedOut};
         scribbleStack(pattern);
         s->setup();
         scribbleStack(pattern);
@@ -117,7 +140,7 @@ inline Outcome runApiCase(const KV& c)
             b << std::fixed << (j == nt ? 2 * M_PI : 2 * M_PI * j / nt) << "\n";
     }
     RunResult r1 = runApi(cfg, gridFile, fr, ft, 0x5a);
-    RunResult r2 = runApi(cfg, gridFile, fr, ft, 0xc3);
+    RunResult r2 = runApi(cfg, gridFile, fr, ft, 0xc3, (int)c.getI("verbose2", 0));
     if (gridFile) {
         std::remove(fr.c_str());
         std::remove(ft.c_str());
@@ -166,7 +189,7 @@ inline Outcome runApiCase(const KV& c)
     if (r1.its != r2.its || std::memcmp(&r1.rho, &r2.rho, 8) != 0 || r1.hasErr != r2.hasErr ||
         (r1.hasErr && (std::memcmp(&r1.e2, &r2.e2, 8) != 0 || std::memcmp(&r1.einf, &r2.einf, 8) != 0))) {
         char buf[300];
-        snprintf(buf, sizeof buf, "statistics depend on uninitialised memory: iterations %d/%d, mean reduction factor %.17g/%.17g, errors (%.6g,%.6g)/(%.6g,%.6g)",
+        snprintf(buf, sizeof buf, "statistics depend on uninitialised memory or on the verbosity option: iterations %d/%d, mean reduction factor %.17g/%.17g, errors (%.6g,%.6g)/(%.6g,%.6g)",
                  r1.its, r2.its, r1.rho, r2.rho, r1.e2, r1.einf, r2.e2, r2.einf);
         o.fail("statistics_uninitialised", buf);
         return o;
@@ -359,6 +382,7 @@ inline KV genOptionsCase()
         s.cache_geom    = rint(0, 7) != 0;
         s.put(c);
         c.putI("grid_file", rweighted({8, 1, 1}));
+        c.putI("verbose2", rweighted({1, 1, 1})); // verbosity of the second run (the first one is silent)
     }
     else {
         c.putS("part", "cli");
